@@ -160,7 +160,7 @@ pub(crate) struct Prm {
 }
 impl Prm {
     fn ctor_name(&self) -> &'static str {
-        ["params", "ridge", "lasso"][self.ctor as usize]
+        ["params", "ridge", "lasso", "default"][self.ctor as usize]
     }
     fn line<F: Sc>(&self) -> String {
         let mut s = format!("ctor={}", self.ctor_name());
@@ -184,7 +184,7 @@ impl Prm {
     /// the values in force according to the DOCUMENTATION (table of `ElasticNetParams`, `ridge` = l1_ratio 0,
     /// `lasso` = l1_ratio 1), rounded to the scalar type: (penalty, l1_ratio, tolerance, max_iterations, intercept)
     fn eff<F: Sc>(&self) -> (f64, f64, f64, u32, bool) {
-        let l1d = [0.5, 0.0, 1.0][self.ctor as usize];
+        let l1d = [0.5, 0.0, 1.0, 0.5][self.ctor as usize];
         (F::of(self.pen.unwrap_or(1.0)).wd(), F::of(self.l1r.unwrap_or(l1d)).wd(), F::of(self.tol.unwrap_or(1e-4)).wd(), self.max.unwrap_or(1000), self.icpt.unwrap_or(true))
     }
     fn valid<F: Sc>(&self) -> bool {
@@ -195,7 +195,9 @@ impl Prm {
         let mut p = match self.ctor {
             0 => ElasticNet::<F>::params(),
             1 => ElasticNet::<F>::ridge(),
-            _ => ElasticNet::<F>::lasso(),
+            2 => ElasticNet::<F>::lasso(),
+            // the `Default` impl of the parameter set (documented defaults, like `params()`)
+            _ => ElasticNetParams::<F>::default(),
         };
         if let Some(v) = self.pen {
             p = p.penalty(F::of(v));
@@ -218,7 +220,8 @@ impl Prm {
         let mut p = match self.ctor {
             0 => MultiTaskElasticNet::<F>::params(),
             1 => MultiTaskElasticNet::<F>::ridge(),
-            _ => MultiTaskElasticNet::<F>::lasso(),
+            2 => MultiTaskElasticNet::<F>::lasso(),
+            _ => MultiTaskElasticNetParams::<F>::default(),
         };
         if let Some(v) = self.pen {
             p = p.penalty(F::of(v));
@@ -240,18 +243,18 @@ impl Prm {
 }
 
 fn gen_prm(rng: &mut Rng, collinear: bool, f32_: bool) -> Prm {
-    let ctor = *rng.pick(&[0u8, 0, 1, 1, 2, 2]);
+    let ctor = *rng.pick(&[0u8, 0, 1, 1, 2, 2, 3]);
     let opt = |rng: &mut Rng| rng.chance(3, 5);
     let mut pen = if opt(rng) { Some(pick_f(rng, &PENS)) } else { None };
     // `l1_ratio` after ridge()/lasso() only now and then: the point of the constructors is their own ratio
-    let mut l1r = if ctor == 0 { if opt(rng) { Some(pick_f(rng, &L1RS)) } else { None } } else if rng.chance(1, 6) { Some(pick_f(rng, &L1RS)) } else { None };
+    let mut l1r = if ctor == 0 || ctor == 3 { if opt(rng) { Some(pick_f(rng, &L1RS)) } else { None } } else if rng.chance(1, 6) { Some(pick_f(rng, &L1RS)) } else { None };
     let tols: &[f64] = if f32_ { &[1e-2, 1e-3, 1e-4] } else { &TOLS };
     let tol = if opt(rng) { Some(pick_f(rng, tols)) } else { None };
     let max = if opt(rng) { Some(*rng.pick(&[1u32, 2, 3, 5, 50, 1000, 20000])) } else { None };
     let icpt = if opt(rng) { Some(rng.chance(2, 3)) } else { None };
     if collinear {
         // collinear designs only with an l2 part ("collinear-but-regularised")
-        let l1d = [0.5, 0.0, 1.0][ctor as usize];
+        let l1d = [0.5, 0.0, 1.0, 0.5][ctor as usize];
         if pen == Some(0.0) {
             pen = Some(0.3);
         }
@@ -272,9 +275,12 @@ fn spoil(rng: &mut Rng, prm: &mut Prm) {
 }
 
 fn gen_xy<F: Sc>(rng: &mut Rng, big: bool, lattice_y: bool, scale_ok: bool) -> (Array2<F>, Array1<F>, usize, bool) {
-    let p = 1 + rng.below(if big { 6 } else { 4 });
+    // one case in 25 is LARGE (p up to 48, n up to 160): a rewrite that is only taken above a size (Gram updates,
+    // chunked or parallel products for `n_features > 32` / `n_samples >= 64` ...) is compared too
+    let large = rng.chance(1, 25);
+    let p = if large { 20 + rng.below(29) } else { 1 + rng.below(if big { 6 } else { 4 }) };
     // n up to 40: several rounds of the eight-fold unrolled kernels plus a remainder
-    let n = p + 1 + rng.below(if big { 36 } else { 10 });
+    let n = if large { p + 30 + rng.below(84) } else { p + 1 + rng.below(if big { 36 } else { 10 }) };
     let kind = rng.below(6);
     let mut x = gen_design(rng, n, p, kind);
     let scaled = scale_ok && rng.chance(1, 4);
@@ -328,7 +334,7 @@ fn op_gap_x<F: Sc>(em: &mut Em, rng: &mut Rng) {
 fn op_cd_x<F: Sc>(em: &mut Em, rng: &mut Rng) {
     let f32_ = F::TY == "f32";
     let (big, lat) = (rng.chance(1, 3), rng.coin());
-    let (x, y, kind, _) = gen_xy::<F>(rng, big, lat, !f32_);
+    let (x, y, kind, _) = gen_xy::<F>(rng, big, lat, true);
     let mut l1r = pick_f(rng, &L1RS);
     let mut pen = pick_f(rng, &PENS);
     if kind == 4 && (pen == 0.0 || l1r == 1.0) {
@@ -336,7 +342,12 @@ fn op_cd_x<F: Sc>(em: &mut Em, rng: &mut Rng) {
         l1r = 0.5;
     }
     let tol = pick_f(rng, if f32_ { &[1e-2, 1e-3, 1e-4] } else { &TOLS });
-    let max = *rng.pick(&[1u32, 2, 3, 5, 50, 1000, 5000]);
+    let mut max = *rng.pick(&[1u32, 2, 3, 5, 50, 1000, 5000]);
+    if x.ncols() >= 20 {
+        // large problems: a short budget (the model walks lists)
+        max = max.min(30);
+        em.count(&format!("cdx:{}:large", F::TY));
+    }
     let (l1r, pen, tol) = (F::of(l1r), F::of(pen), F::of(tol));
     let xl = XL::new(&x, pick_lay(rng));
     em.count(&format!("cdx:{}:lay={}", F::TY, xl.name()));
@@ -357,13 +368,28 @@ fn op_cd_x<F: Sc>(em: &mut Em, rng: &mut Rng) {
 fn op_fitc<F: Sc>(em: &mut Em, rng: &mut Rng) {
     let f32_ = F::TY == "f32";
     let (big, lat) = (rng.chance(1, 3), rng.coin());
-    let (x, y, kind, _) = gen_xy::<F>(rng, big, lat, !f32_);
+    let (x, y, kind, scaled) = gen_xy::<F>(rng, big, lat, true);
     let mut prm = gen_prm(rng, kind == 4, f32_);
+    if x.ncols() >= 20 {
+        prm.max = Some(prm.max.unwrap_or(1000).min(30));
+        em.count(&format!("fitc:{}:large", F::TY));
+    }
     let invalid = rng.chance(1, 25);
     if invalid {
         spoil(rng, &mut prm);
     }
     let xl = XL::new(&x, pick_lay(rng));
+    // target: owned, a contiguous view, or — on integer targets with an intercept, where the mean is exact whatever
+    // the order of summation and the centred target is an owned array — a view that skips every other element
+    let ystrided = lat && !scaled && prm.icpt.unwrap_or(true) && rng.chance(1, 3);
+    let yback: Array1<F> = {
+        let mut b = Array1::<F>::from_elem(2 * y.len(), F::of(-3.25));
+        b.slice_mut(s![..;2]).assign(&y);
+        b
+    };
+    if ystrided {
+        em.count(&format!("fitc:{}:target=strided", F::TY));
+    }
     let yview = rng.coin();
     let pnew: Option<Array2<F>> = if rng.chance(2, 3) { Some(new_rows(rng, x.ncols())) } else { None };
     em.count(&format!("fitc:{}:ctor={}", F::TY, prm.ctor_name()));
@@ -377,12 +403,12 @@ fn op_fitc<F: Sc>(em: &mut Em, rng: &mut Rng) {
         Some(pn) => format!(" P={}", rows_hx(pn.view())),
         None => String::new(),
     };
-    let op = format!("fitc {} X={} y={}{}{}{}", prm.line::<F>(), rows_hx(x.view()), vec_hx(&y), ptok, xl.tok(), ty_tok::<F>());
+    let op = format!("fitc {} X={} y={}{}{}{}{}", prm.line::<F>(), rows_hx(x.view()), vec_hx(&y), ptok, xl.tok(), ty_tok::<F>(), if ystrided { " yform=strided" } else { "" });
     let mut counts = vec![];
     let class = if invalid { "fitc:invalid_params" } else { "fitc" };
     em.case_valid(op, class, |ctx| {
         let params = prm.build::<F>();
-        let res = if yview { params.fit(&DatasetBase::new(xl.view(), y.view())) } else if xl.lay == Lay::C { params.fit(&Dataset::new(xl.back.clone(), y.clone())) } else { params.fit(&DatasetBase::new(xl.view(), y.clone())) };
+        let res = if ystrided { params.fit(&DatasetBase::new(xl.view(), yback.slice(s![..;2]))) } else if yview { params.fit(&DatasetBase::new(xl.view(), y.view())) } else if xl.lay == Lay::C { params.fit(&Dataset::new(xl.back.clone(), y.clone())) } else { params.fit(&DatasetBase::new(xl.view(), y.clone())) };
         match res {
             Err(e) => {
                 ctx.require(!prm.valid::<F>(), "fit_ok", class, || format!("valid parameters refused: {:?}", e));
@@ -420,13 +446,76 @@ fn op_fitc<F: Sc>(em: &mut Em, rng: &mut Rng) {
     }
 }
 
+/// "whatever the offsets and scales of the features ... badly scaled columns ... f32/f64": the units of some columns
+/// are changed by powers of ten far beyond the 1e-3..1e3 of the other streams (the target is generated from the
+/// design BEFORE the change of units, so every column matters to it whatever its scale): columns of norm² under
+/// `F::EPSILON` and coefficients under `F::EPSILON` — where the solver's former `abs_diff_eq!(norm_cols_x[j], 0)` /
+/// `abs_diff_ne!(w_j, 0)` guards dropped columns and residual updates (finding C11-enet-epsilon-guards, fixed in
+/// repo 070f1c2).  Same `fitc` line as above, so model and implementation are compared bit for bit; the oracle
+/// clause that speaks here is `suboptimality_within_tolerance`.
+fn op_fitc_scales<F: Sc>(em: &mut Em, rng: &mut Rng) {
+    let f32_ = F::TY == "f32";
+    let p = 1 + rng.below(3);
+    let n = p + 2 + rng.below(12);
+    let kind = *rng.pick(&[0usize, 0, 1, 2]);
+    let mut x = gen_design(rng, n, p, kind);
+    let lat = rng.coin();
+    let y = gen_target(rng, &x, lat);
+    let exps: &[i32] = if f32_ { &[-5, -4, -3, 3, 5, 7] } else { &[-10, -9, -6, 6, 9, 12] };
+    let mut tag = "mid";
+    for j in 0..p {
+        if j == 0 || rng.coin() {
+            let k = *rng.pick(exps);
+            let f = 10f64.powi(k);
+            for i in 0..n {
+                x[[i, j]] *= f;
+            }
+            let tiny = if f32_ { k <= -4 } else { k <= -9 };
+            let huge = if f32_ { k >= 7 } else { k >= 12 };
+            if tiny {
+                tag = "tiny";
+            } else if huge && tag != "tiny" {
+                tag = "huge";
+            }
+        }
+    }
+    let (x, y): (Array2<F>, Array1<F>) = (to_f(&x), to_f1(&y));
+    // small or no penalty: a column in other units still carries its share of the fit
+    let pen = *rng.pick(&[0.0, 0.0, 0.001, 0.01]);
+    let l1r = *rng.pick(&[0.5, 1.0, 0.0]);
+    let tol = *rng.pick(if f32_ { &[1e-2, 1e-3][..] } else { &[1e-4, 1e-6][..] });
+    let prm = Prm { ctor: 0, pen: Some(pen), l1r: Some(l1r), tol: Some(tol), max: Some(*rng.pick(&[1000u32, 5000])), icpt: Some(kind == 0 && rng.coin()) };
+    let xl = XL::new(&x, pick_lay(rng));
+    em.count(&format!("fitc:{}:scales={}", F::TY, tag));
+    let op = format!("fitc {} X={} y={}{}{}", prm.line::<F>(), rows_hx(x.view()), vec_hx(&y), xl.tok(), ty_tok::<F>());
+    let mut counts = vec![];
+    em.case_valid(op, "fitc", |ctx| {
+        let m = match prm.build::<F>().fit(&DatasetBase::new(xl.view(), y.clone())) {
+            Ok(m) => m,
+            Err(e) => {
+                ctx.fail("fit_ok", "fitc", format!("valid parameters refused: {:?}", e));
+                return "err".to_string();
+            }
+        };
+        let (pen, l1r, tol, max, icpt) = prm.eff::<F>();
+        let c = EnetCase { x: wide2(x.view()), y: wide1(&y), l1r, pen, tol, max, icpt, rel: F::REL };
+        let w = m.hyperplane().clone();
+        oracle_enet(ctx, &mut counts, &c, &wide1(&w).to_vec(), m.intercept().wd(), m.duality_gap().wd(), m.n_steps(), "fitc");
+        format!("ok b={} w={} gap={} steps={}", shx(m.intercept()), list(w.iter().copied(), shx), shx(m.duality_gap()), m.n_steps())
+    });
+    for k in counts {
+        em.count(&format!("xs:{}:{}:{}", F::TY, tag, k));
+    }
+}
+
 // ------------------------------------------------------------------ multi task
 
 fn gen_mtl_x<F: Sc>(rng: &mut Rng, lattice: bool) -> (Array2<F>, Array2<F>, usize) {
-    let p = 1 + rng.below(4);
+    let large = rng.chance(1, 25);
+    let p = if large { 12 + rng.below(24) } else { 1 + rng.below(4) };
     let nmax = if rng.chance(1, 4) { 24 } else { 8 };
-    let n = p + 1 + rng.below(nmax);
-    let t = 1 + rng.below(3);
+    let n = if large { p + 30 + rng.below(50) } else { p + 1 + rng.below(nmax) };
+    let t = if large { 2 + rng.below(5) } else { 1 + rng.below(3) };
     let kind = rng.below(6);
     let x = gen_design(rng, n, p, kind);
     let mut y = Array2::<f64>::zeros((n, t));
@@ -485,7 +574,11 @@ fn op_bcdt<F: Sc>(em: &mut Em, rng: &mut Rng) {
         l1r = 0.5;
     }
     let tol = pick_f(rng, if f32_ { &[1e-2, 1e-3, 1e-4] } else { &TOLS });
-    let max = *rng.pick(&[1u32, 2, 3, 5, 50, 400, 400]);
+    let mut max = *rng.pick(&[1u32, 2, 3, 5, 50, 400, 400]);
+    if x.ncols() >= 12 {
+        max = max.min(12);
+        em.count(&format!("bcdt:{}:large", F::TY));
+    }
     let (l1r, pen, tol) = (F::of(l1r), F::of(pen), F::of(tol));
     let xl = XL::new(&x, pick_lay(rng));
     em.count(&format!("bcdt:{}:lay={}", F::TY, xl.name()));
@@ -506,20 +599,34 @@ fn op_bcdt<F: Sc>(em: &mut Em, rng: &mut Rng) {
 /// `MultiTaskElasticNet::{params,ridge,lasso}()` + setters + `fit` (+ `predict`)
 fn op_fitm<F: Sc>(em: &mut Em, rng: &mut Rng) {
     let f32_ = F::TY == "f32";
-    // integer targets: the column means are exact whatever the summation order of `mean_axis`
-    let (x, y, kind) = gen_mtl_x::<F>(rng, true);
+    // `mean_axis(Axis(0))` of a 2-D target: in standard layout with t >= 2 the rows are added one after the other
+    // (the model's `computeInterceptMtl`), so real-valued targets are compared there (`b` exactly); in Fortran
+    // order / for a single column each column goes through the unrolled `sum`: integer targets there (the
+    // column means are then exact whatever the order)
+    let yform = rng.below(4); // owned standard, Fortran order, view, view that skips rows
+    let real_y = rng.coin();
+    let (x, mut y, kind) = gen_mtl_x::<F>(rng, !real_y);
     let t = y.ncols();
+    if real_y && (t < 2 || yform == 1) {
+        y.mapv_inplace(|v| F::of(v.wd().round()));
+    } else if real_y {
+        em.count(&format!("fitm:{}:target=real", F::TY));
+    }
     let mut prm = gen_prm(rng, kind == 4, f32_);
     if let Some(m) = prm.max {
         prm.max = Some(m.min(1000));
+    }
+    if x.ncols() >= 12 {
+        prm.max = Some(prm.max.unwrap_or(1000).min(12));
+        em.count(&format!("fitm:{}:large", F::TY));
     }
     let invalid = rng.chance(1, 25);
     if invalid {
         spoil(rng, &mut prm);
     }
     let xl = XL::new(&x, pick_lay(rng));
-    let yform = rng.below(3); // owned standard, Fortran order, view
     let pnew: Option<Array2<F>> = if rng.chance(2, 3) { Some(new_rows(rng, x.ncols())) } else { None };
+    em.count(&format!("fitm:{}:yform={}", F::TY, yform));
     em.count(&format!("fitm:{}:ctor={}", F::TY, prm.ctor_name()));
     em.count(&format!("fitm:{}:lay={}", F::TY, xl.name()));
     em.count(&format!("fitm:tasks={}", t));
@@ -527,7 +634,7 @@ fn op_fitm<F: Sc>(em: &mut Em, rng: &mut Rng) {
         Some(pn) => format!(" P={}", rows_hx(pn.view())),
         None => String::new(),
     };
-    let op = format!("{} {} t={} X={} Y={}{}{}{}", name32::<F>("fitm"), prm.line::<F>(), t, rows_hx(x.view()), rows_hx(y.view()), ptok, xl.tok(), ty_tok::<F>());
+    let op = format!("{} {} t={} X={} Y={}{}{}{} yform={}", name32::<F>("fitm"), prm.line::<F>(), t, rows_hx(x.view()), rows_hx(y.view()), ptok, xl.tok(), ty_tok::<F>(), yform);
     let mut counts = vec![];
     let class = if invalid { "fitm:invalid_params" } else { "fitm" };
     em.case_valid(op, class, |ctx| {
@@ -539,7 +646,12 @@ fn op_fitm<F: Sc>(em: &mut Em, rng: &mut Rng) {
                 yf.assign(&y);
                 params.fit(&DatasetBase::new(xl.view(), yf))
             }
-            _ => params.fit(&DatasetBase::new(xl.view(), y.view())),
+            2 => params.fit(&DatasetBase::new(xl.view(), y.view())),
+            _ => {
+                let mut yb = Array2::<F>::from_elem((2 * y.nrows(), t), F::of(-3.25));
+                yb.slice_mut(s![..;2, ..]).assign(&y);
+                params.fit(&DatasetBase::new(xl.view(), yb.slice(s![..;2, ..])))
+            }
         };
         match res {
             Err(e) => {
@@ -578,6 +690,29 @@ fn op_fitm<F: Sc>(em: &mut Em, rng: &mut Rng) {
             em.count(&format!("x:{}:fitm:{}", F::TY, k));
         }
     }
+}
+
+/// `duality_gap_mtl` on f32 (`gapm32`): the single-precision instantiation of the multi-task gap formula, on lattice
+/// inputs (tolerance 1e-4: the row norms go through `sqrt`, the products through gemm)
+fn op_gapm32(em: &mut Em, rng: &mut Rng) {
+    let (x, y, _) = gen_mtl_x::<f32>(rng, true);
+    let (n, p) = x.dim();
+    let t = y.ncols();
+    let w = Array2::<f32>::from_shape_fn((p, t), |_| if rng.chance(1, 4) { 0.0 } else { rng.range(-4, 4) as f32 });
+    let r = if rng.coin() { &y - &x.dot(&w) } else { Array2::from_shape_fn((n, t), |_| rng.range(-5, 5) as f32) };
+    let l1r = *rng.pick(&[0.0f32, 0.25, 0.5, 1.0]);
+    let pen = *rng.pick(&[0.0f32, 0.125, 0.5, 2.0, 8.0]);
+    let xl = XL::new(&x, pick_lay(rng));
+    em.count(&format!("gapm32:tasks={}", t));
+    let op = format!("gapm32 t={} X={} Y={} W={} R={} l1r={} pen={}{} ty=f32", t, rows_hx(x.view()), rows_hx(y.view()), rows_hx(w.view()), rows_hx(r.view()), l1r.hx(), pen.hx(), xl.tok());
+    em.case(op, |ctx| {
+        let g = hk::duality_gap_mtl(xl.view(), y.view(), w.view(), r.view(), l1r, pen);
+        let nf = n as f64;
+        let g2 = gap_mtl_naive(&wide2(x.view()), &wide2(y.view()), &wide2(w.view()), &wide2(r.view()), l1r as f64 * pen as f64 * nf, (1.0 - l1r as f64) * pen as f64 * nf);
+        let sc: f64 = 1.0 + g2.abs() + y.iter().map(|v| (*v as f64) * (*v as f64)).sum::<f64>() + r.iter().map(|v| (*v as f64) * (*v as f64)).sum::<f64>() + (pen as f64) * nf * w.iter().map(|v| (*v as f64) * (*v as f64)).sum::<f64>();
+        ctx.require((g as f64 - g2).abs() <= 1e-5 * sc, "gap_formula", "gapm32", || format!("duality_gap_mtl::<f32>={} naive(f64)={}", g, g2));
+        format!("ok {}", shtx(g))
+    });
 }
 
 fn op_objm(em: &mut Em, rng: &mut Rng) {
@@ -619,7 +754,7 @@ fn op_ols_x<F: Sc>(em: &mut Em, rng: &mut Rng) {
         return;
     }
     let xl = XL::new(&x, pick_lay(rng));
-    let form = rng.below(4); // owned 1-D, (n,1) 2-D, view, default()
+    let form = rng.below(5); // owned 1-D, owned records, view, default(), target view that skips elements
     em.count(&format!("olsx:{}:lay={}", F::TY, xl.name()));
     em.count(&format!("olsx:{}:n-unknowns={}", F::TY, if n == unknowns { "0" } else if n == unknowns + 1 { "1" } else { ">1" }));
     em.count(&format!("olsx:form={}", form));
@@ -633,6 +768,11 @@ fn op_ols_x<F: Sc>(em: &mut Em, rng: &mut Rng) {
             // ((n, 1) 2-D targets do not type-check as single targets: nothing to run)
             1 => lr.fit(&Dataset::new(xl.view().to_owned(), y.clone())),
             2 => lr.fit(&DatasetBase::new(xl.view(), y.view())),
+            4 => {
+                let mut yb = Array1::<F>::from_elem(2 * y.len(), F::of(-3.25));
+                yb.slice_mut(s![..;2]).assign(&y);
+                lr.fit(&DatasetBase::new(xl.view(), yb.slice(s![..;2])))
+            }
             _ => lr.fit(&DatasetBase::new(xl.view(), y.clone())),
         };
         match res {
@@ -710,6 +850,12 @@ pub(crate) fn run(em: &mut Em, rng: &mut Rng) {
     for _ in 0..150 * f {
         op_fitc::<f32>(em, rng);
     }
+    for _ in 0..120 * f {
+        op_fitc_scales::<f64>(em, rng);
+    }
+    for _ in 0..120 * f {
+        op_fitc_scales::<f32>(em, rng);
+    }
     for _ in 0..250 * f {
         op_bcdt::<f64>(em, rng);
     }
@@ -721,6 +867,9 @@ pub(crate) fn run(em: &mut Em, rng: &mut Rng) {
     }
     for _ in 0..60 * f {
         op_fitm::<f32>(em, rng);
+    }
+    for _ in 0..100 * f {
+        op_gapm32(em, rng);
     }
     for _ in 0..100 * f {
         op_objm(em, rng);
